@@ -255,6 +255,16 @@ def probe_entries(out, shim):
                 body += ('        let s = m::fragment_state(&module, &e);\n'
                          '        v.push(json!({"ev": "rt.fragment_state", "fn": %s, "module_same": s.module.id == module.id, "entry_point": s.entry_point, "targets_same": std::ptr::eq(s.targets.as_ptr(), e.targets.as_ptr()) && s.targets.len() == e.targets.len(), "constants_same": std::ptr::eq(s.compilation_options.constants, &e.constants), "zero_init": s.compilation_options.zero_initialize_workgroup_memory}));\n' % rust_str(name))
             body += "    }\n"
+    if shim and "fn vertex_state" in fns:
+        # vertex_state with an entry description the caller builds itself: whatever it carries must come through
+        body += ('    {\n        let lay = wgpu::VertexBufferLayout { array_stride: 16, step_mode: wgpu::VertexStepMode::Instance, attributes: &[] };\n'
+                 '        let e = m::VertexEntry::<1> { entry_point: "custom_entry", buffers: [lay], constants: [("k".to_string(), 2.5f64)].into_iter().collect() };\n'
+                 '        let s = m::vertex_state(&module, &e);\n'
+                 '        v.push(json!({"ev": "rt.vertex_state_custom", "buffers_len": s.buffers.len(), "buffers_same": std::ptr::eq(s.buffers.as_ptr(), e.buffers.as_ptr()), "entry_point": s.entry_point, "constants_same": std::ptr::eq(s.compilation_options.constants, &e.constants), "module_same": s.module.id == module.id}));\n    }\n')
+    if shim and "fn fragment_state" in fns:
+        body += ('    {\n        let e = m::FragmentEntry::<2> { entry_point: "custom_entry", targets: [None, None], constants: [("k".to_string(), 2.5f64)].into_iter().collect() };\n'
+                 '        let s = m::fragment_state(&module, &e);\n'
+                 '        v.push(json!({"ev": "rt.fragment_state_custom", "targets_len": s.targets.len(), "targets_same": std::ptr::eq(s.targets.as_ptr(), e.targets.as_ptr()), "entry_point": s.entry_point, "constants_same": std::ptr::eq(s.compilation_options.constants, &e.constants), "module_same": s.module.id == module.id}));\n    }\n')
     if shim:
         for c in out.get("compute", []):
             fn = c["fn"]
